@@ -610,7 +610,10 @@ def rule_units(ctx, R):
                         g_.append("EMPTY=" + lab_[-1])
                     elif lab_.startswith("SW[DISCR(") and ("get_area" in lab_ or lab_.startswith("SW[DISCR(AREA")):
                         g_.append("AREA=" + ("Val" if lab_.endswith("=0") else "Nil"))
-            rows.add((tuple(sorted(set(g_))), tuple(ev_)))
+            gs_ = set(g_)
+            if {"AREA=Val", "AREA=Nil"} <= gs_ or {"EMPTY=0", "EMPTY=1"} <= gs_:
+                continue  # the same test taken both ways on one path: infeasible
+            rows.add((tuple(sorted(gs_)), tuple(ev_)))
         return rows
 
     want_g = {(("AREA=Val", "EMPTY=0"), ("NEWBLOCK(c)", "OPEN")), (("AREA=Val", "EMPTY=1"), ("APPEND(c)", "OPEN")), (("AREA=Nil",), ("APPEND(c)",))}
